@@ -3,6 +3,8 @@
 #   * run_src and run_go∘compile must give the same OUT line,
 #   * when a hand-written Folang twin <name>.fo exists, it is transpiled with a scratch fc built from /repo,
 #     compiled with the real Go toolchain and its stdout must equal the model's output,
+#   * when <name>.structure exists, the emitted gen_m.go, canonicalised by oracle/gocanon (go/parser), must be
+#     textually equal to the answer of `compile` (the lowering of Core/Compile.v is what fc does),
 #   * *.expect (optional) holds the expected answer line of run_src (used for STUCK / refutation cases).
 # usage: sh oracle/test_c01.sh [--no-go]
 set -u
@@ -19,6 +21,7 @@ export GOFLAGS=-mod=mod GOPROXY=off GOSUMDB=off GOTOOLCHAIN=local
 
 if [ $NOGO = 0 ]; then
   cp -r "$REPO" "$SCR/tree" && (cd "$SCR/tree/fc" && go build -o "$SCR/fc" .) || { echo "FAIL: cannot build fc"; exit 1; }
+  (cd oracle/gocanon && go build -o "$SCR/gocanon" .) || { echo "FAIL: cannot build gocanon"; exit 1; }
 fi
 
 unq() { # OUT "..." -> raw bytes
@@ -68,6 +71,10 @@ for f in oracle/c01_tests/*.sexp; do
       for p in frt slice strings dict buf sys; do printf 'replace github.com/karino2/folang/pkg/%s => %s/pkg/%s\n' $p "$REPO" $p; done
     } > "$d/go.mod"
     cp "$REPO/fc/go.sum" "$d/go.sum"
+    if [ -f "oracle/c01_tests/$n.structure" ]; then
+      "$SCR/gocanon" "$d/gen_m.go" > "$d/real.sexp"; printf '%s\n' "$cmp" > "$d/model.sexp"
+      cmp -s "$d/real.sexp" "$d/model.sexp" || { echo "FAIL $n: structure of the emitted Go differs from compile"; fail=1; }
+    fi
     (cd "$d" && go build -o prog . >build.log 2>&1) || { echo "FAIL $n: go build: $(cat "$d/build.log")"; fail=1; continue; }
     (cd "$d" && ./prog > real.out 2>real.err)
     printf '%s\n' "$gor" | unq > "$d/model.out"
